@@ -414,6 +414,11 @@ def w_words(items):
             for a_, spec_ in (rules[unit][0] or {}).items():
                 if a_ not in p.attributes:
                     p.add_attribute(a_, spec_[1] if len(spec_) > 1 else "v1")
+        if len(word) % 2 == 0 and word:
+            # the children carry tails (padding an import keeps: NBSP, TAB; text after an inline element): a child SEQUENCE is a
+            # sequence of names
+            for k_, ch_ in enumerate(p.children):
+                ch_.tail = ["\u00a0", "\t", "tail text", None, " ", "\n  "][k_ % 6]
         if len(word) % 3 == 2 and unit != "@metadata":
             # where the parent hangs is not what its rule speaks about: below foreign content of a metadata element, two levels down
             from metapype.model.node import Node as _N
